@@ -545,7 +545,8 @@ NP_FUNCS = {
     'numpy.arctan': lambda x: vmap(sp.atan, x), 'numpy.arctan2': lambda y, x: sp.atan2(y, x),
     'numpy.arccos': lambda x: vmap(sp.acos, x), 'numpy.arcsin': lambda x: vmap(sp.asin, x),
     'numpy.log': lambda x: vmap(sp.log, x), 'numpy.exp': lambda x: vmap(sp.exp, x),
-    'numpy.sqrt': lambda x: vmap(sp.sqrt, x), 'numpy.abs': lambda x: vmap(sp.Abs, x), 'numpy.absolute': lambda x: vmap(sp.Abs, x),
+    'numpy.sqrt': lambda x, out=None, **k: _ufunc_out(vmap(sp.sqrt, x), out) if out is not None else vmap(sp.sqrt, x),
+    'numpy.diagonal': lambda a, offset=0, axis1=0, axis2=1: np.diagonal(np.asarray(a, dtype=object), int(offset), int(axis1), int(axis2)).copy(), 'numpy.abs': lambda x: vmap(sp.Abs, x), 'numpy.absolute': lambda x: vmap(sp.Abs, x),
     'numpy.sign': lambda x: vmap(sp.sign, x), 'numpy.floor': lambda x: vmap(sp.floor, x), 'numpy.ceil': lambda x: vmap(sp.ceiling, x),
     'numpy.rint': lambda x: _rint(x), 'numpy.round': lambda x, decimals=0: (_rint(x) if decimals == 0 and all(sp.sympify(v).is_number for v in np.ravel(x)) else x),
     'numpy.radians': lambda x: vmap(lambda e: e * sp.pi / 180, x), 'numpy.degrees': lambda x: vmap(lambda e: e * 180 / sp.pi, x),
@@ -583,7 +584,7 @@ NP_FUNCS = {
     'numpy.expand_dims': lambda a, axis: np.expand_dims(np.asarray(a, dtype=object), axis), 'numpy.squeeze': lambda a, axis=None: np.squeeze(np.asarray(a, dtype=object), axis=axis),
     'numpy.reshape': lambda a, shape: np.reshape(np.asarray(a, dtype=object), shape), 'numpy.ravel': lambda a: np.ravel(np.asarray(a, dtype=object)),
     'numpy.tile': lambda a, reps: np.tile(np.asarray(a, dtype=object), (int(reps) if np.ndim(reps) == 0 else tuple(int(v) for v in np.ravel(reps)))), 'numpy.repeat': lambda a, r, axis=None: np.repeat(np.asarray(a, dtype=object), (int(r) if np.ndim(r) == 0 else [int(v) for v in np.ravel(r)]), axis=axis),
-    'numpy.apply_along_axis': lambda f, axis, a_, *args, **kw: _apply_along(f, axis, a_, args, kw),
+    'numpy.apply_along_axis': lambda func1d=None, axis=None, arr=None, *args, **kw: _apply_along(func1d, axis, arr, args, kw),
     'numpy.block': lambda blocks: np.block([[np.asarray(b, dtype=object) for b in row] if isinstance(row, (list, tuple)) else np.asarray(row, dtype=object) for row in blocks]),
     'numpy.ascontiguousarray': lambda a, **k: np.array(np.asarray(a, dtype=object)), 'numpy.asfortranarray': lambda a, **k: np.array(np.asarray(a, dtype=object)),
     'numpy.copy': lambda a, **k: np.array(np.asarray(a, dtype=object)), 'numpy.linspace': lambda a, b, n_=50, **k: arr([a + (b - a) * sp.Rational(i, int(n_) - 1) for i in range(int(n_))]) if int(n_) > 1 else arr([a]),
@@ -1211,6 +1212,17 @@ class SymEval:
                 tiny = bool(z)
                 return tiny if isinstance(op, (ast.Lt, ast.LtE)) else tiny
         return r
+
+    def e_Lambda(self, n, p):
+        """a lambda is a nested function with one return statement; it sees the enclosing function's current bindings"""
+        fn = getattr(n, '_am_fn', None)
+        if fn is None:
+            fn = ast.FunctionDef(name='<lambda>', args=n.args, body=[ast.Return(value=n.body)], decorator_list=[], returns=None, type_params=[])
+            ast.copy_location(fn, n)
+            ast.fix_missing_locations(fn)
+            fn._mod = getattr(self.fn_stack[-1], '_mod', None) if self.fn_stack else None
+            n._am_fn = fn
+        return Closure(fn, self, outer=self.fn_stack[-1] if self.fn_stack else None, env=p.env)
 
     def e_Yield(self, n, p):
         p.env.setdefault('__yielded__', [])
@@ -1852,6 +1864,16 @@ class SymEval:
             p.env[t.id] = v
         elif isinstance(t, (ast.Tuple, ast.List)):
             vs = list(v) if not is_arr(v) else [v[i] for i in range(v.shape[0])]
+            star = [i for i, e in enumerate(t.elts) if isinstance(e, ast.Starred)]
+            if len(star) == 1 and len(vs) >= len(t.elts) - 1:      # a, *rest, z = values
+                i = star[0]
+                tail = len(t.elts) - i - 1
+                for e, x in zip(t.elts[:i], vs[:i]):
+                    self.assign(e, x, p)
+                self.assign(t.elts[i].value, list(vs[i:len(vs) - tail]), p)
+                for e, x in zip(t.elts[i + 1:], vs[len(vs) - tail:]):
+                    self.assign(e, x, p)
+                return
             if len(vs) != len(t.elts):
                 raise Opaque('unpack arity')
             for e, x in zip(t.elts, vs):
@@ -2127,6 +2149,23 @@ def _like_shape(x, k):
 
 def _generic(e):
     """mask entry in general position: an equality between symbolic quantities that is not an identity does not hold, an inequality (!=) does"""
+    if isinstance(e, sp.And) and len(e.args) == 2 and all(isinstance(a_, sp.core.relational.Relational) for a_ in e.args) and e.free_symbols:
+        # (e > -c) & (e < c) with c tiny: the written-out |e| < c
+        lo = hi = None
+        for a_ in e.args:
+            d_ = (a_.lhs - a_.rhs) if isinstance(a_, (sp.StrictLessThan, sp.LessThan)) else ((a_.rhs - a_.lhs) if isinstance(a_, (sp.StrictGreaterThan, sp.GreaterThan)) else None)
+            if d_ is None:
+                return e
+            c_, rest = d_.as_coeff_Add()          # rest + c_ < 0
+            if not (c_.is_number and c_.is_negative and -c_ <= sp.Rational(1, 10 ** 6)):
+                return e
+            if lo is None:
+                lo = rest
+            else:
+                hi = rest
+        if lo is not None and hi is not None and sp.simplify(lo + hi) == 0:
+            return bool(is_zero(lo, deep=False))
+        return e
     if isinstance(e, sp.Equality) and e.free_symbols:
         return False
     if isinstance(e, sp.Unequality) and e.free_symbols:
